@@ -232,6 +232,30 @@ func relatedPair(r *rand.Rand, alpha []byte, maxLen int) ([]byte, []byte) {
 	if r.IntN(4) == 0 {
 		return a, randSeq(r, alpha, r.IntN(maxLen+1))
 	}
+	if r.IntN(6) == 0 && len(a) > 0 {
+		// one sequence is EXACTLY a prefix, a suffix or an inner part of the other (or the two are identical),
+		// a being the longer or the shorter one, and usually long (>= 64): what a shortcut would test for
+		if maxLen >= 100 && len(a) < 70 {
+			a = randSeq(r, alpha, 64+r.IntN(maxLen-63))
+		}
+		cut := r.IntN(min(len(a), 6) + 1)
+		var b []byte
+		switch r.IntN(4) {
+		case 0:
+			b = a[:len(a)-cut]
+		case 1:
+			b = a[cut:]
+		case 2:
+			b = a[cut/2 : len(a)-(cut-cut/2)]
+		default:
+			b = a
+		}
+		b = append([]byte{}, b...)
+		if r.IntN(2) == 0 {
+			a, b = b, a
+		}
+		return a, b
+	}
 	b := append([]byte{}, a...)
 	for e := r.IntN(1 + len(a)/3 + 2); e > 0; e-- {
 		switch r.IntN(3) {
@@ -310,6 +334,8 @@ func init() {
 			firstCallUnit(firstAlign("C08")),
 			firstParallelUnit(parAlign),
 			reuseUnit(reuseAlign),
+			{Name: "lengthpairs", QShards: 4, TShards: 8, Run: func(c *Ctx) { alignLengthPairs(c, alignOpts{validity: true, local: true}, c08Gen) }},
+			{Name: "easy", TShards: 4, Run: func(c *Ctx) { alignEasy(c, alignOpts{validity: true, local: true}, 0) }},
 			{Name: "largecalls", QShards: 6, TShards: 8, StallSec: 120, Run: func(c *Ctx) { alignLargeCalls(c, alignOpts{validity: true, local: true}, c08Gen) }},
 			{Name: "wide", QShards: 8, TShards: 10, Run: func(c *Ctx) { alignWide(c, alignOpts{validity: true, local: true}, c08Gen) }},
 			{Name: "manycalls", QShards: 4, TShards: 6, Run: func(c *Ctx) { alignManyCalls(c, alignOpts{validity: true, local: true}, c08Gen) }},
@@ -332,6 +358,8 @@ func init() {
 			{Name: "tables", Run: c09Tables},
 			{Name: "reuse", TShards: 4, Run: func(c *Ctx) { alignReuse(c, alignOpts{validity: true, optimal: true}, 1) }},
 			{Name: "large", QShards: 4, TShards: 8, Run: func(c *Ctx) { alignLarge(c, alignOpts{validity: true, optimal: true}, c09Gen) }},
+			{Name: "lengthpairs", QShards: 4, TShards: 8, Run: func(c *Ctx) { alignLengthPairs(c, alignOpts{validity: true, optimal: true, local: true}, c09Gen) }},
+			{Name: "easy", TShards: 4, Run: func(c *Ctx) { alignEasy(c, alignOpts{validity: true, optimal: true, local: true}, 1) }},
 			{Name: "largecalls", QShards: 6, TShards: 8, StallSec: 120, Run: func(c *Ctx) { alignLargeCalls(c, alignOpts{validity: true, optimal: true, local: true}, c09Gen) }},
 			{Name: "wide", QShards: 8, TShards: 10, Run: func(c *Ctx) { alignWide(c, alignOpts{validity: true, optimal: true, local: true}, c09Gen) }},
 			{Name: "manycalls", QShards: 4, TShards: 6, Run: func(c *Ctx) { alignManyCalls(c, alignOpts{validity: true, optimal: true, local: true}, c09Gen) }},
@@ -355,6 +383,10 @@ func init() {
 			{Name: "witnesses", Run: c10Witnesses},
 			{Name: "reuse", TShards: 4, Run: func(c *Ctx) { alignReuse(c, alignOpts{validity: true, optimal: true, knownC10: true}, 2) }},
 			{Name: "large", QShards: 4, TShards: 8, Run: func(c *Ctx) { alignLarge(c, alignOpts{validity: true, optimal: true, knownC10: true}, c10Gen) }},
+			{Name: "lengthpairs", QShards: 4, TShards: 8, Run: func(c *Ctx) {
+				alignLengthPairs(c, alignOpts{validity: true, optimal: true, knownC10: true, local: true}, c10Gen)
+			}},
+			{Name: "easy", TShards: 4, Run: func(c *Ctx) { alignEasy(c, alignOpts{validity: true, optimal: true, knownC10: true, local: true}, 2) }},
 			{Name: "largecalls", QShards: 6, TShards: 8, StallSec: 120, Run: func(c *Ctx) {
 				alignLargeCalls(c, alignOpts{validity: true, optimal: true, knownC10: true, local: true}, c10Gen)
 			}},
@@ -1038,6 +1070,112 @@ func c10Fractional(c *Ctx) {
 			k.Nontrivial([]byte(matrixString(m)), []byte("fractional"))
 		})
 	}
+}
+
+// alignEasy: inputs that LOOK easy — one sequence is exactly the other plus a
+// short head or tail (or the two are identical), 64 … 140 symbols long, under a
+// "nice" matrix: every symbol scores best against itself within its row, all gap
+// scores are one and the same non-positive number — which is what a shortcut
+// ("a prefix: n matches and one gap") would test for before skipping the table.
+// The matrix is still asymmetric: a symbol may score higher in another symbol's
+// COLUMN than that symbol does against itself, so the obvious alignment is not
+// always the best one. mode 0: any gap-open (C08), 1: none (C09), 2: some (C10).
+func alignEasy(c *Ctx, o alignOpts, mode int) {
+	n := c.N(400, 20000)
+	for i := 0; i < n; i++ {
+		c.Case(int64(i), func(k *K) {
+			r := k.Rand()
+			alpha := alignAlphabet(r)
+			m := align.SubstitutionMatrix{}
+			for _, x := range alpha {
+				d := float64(1 + r.IntN(5))
+				for _, y := range alpha {
+					if x == y {
+						m[[2]byte{x, y}] = d
+					} else {
+						m[[2]byte{x, y}] = d - float64(r.IntN(8)) // never above the diagonal of its row; may beat the diagonal of its column
+					}
+				}
+			}
+			g := -float64(r.IntN(4))
+			for _, x := range alpha {
+				m[[2]byte{x, gapB}], m[[2]byte{gapB, x}] = g, g
+			}
+			open := 0.0
+			if mode == 2 || mode == 0 && r.IntN(2) == 0 {
+				open = -float64(1 + r.IntN(4))
+			}
+			m[[2]byte{gapB, gapB}] = open
+			x := randSeq(r, alpha, 64+r.IntN(77))
+			if r.IntN(5) == 0 {
+				x = randSeq(r, alpha, r.IntN(64))
+			}
+			tail := randSeq(r, alpha, 1+r.IntN(3))
+			var a, b []byte
+			switch i % 6 {
+			case 0:
+				a, b = append(append([]byte{}, x...), tail...), x
+			case 1:
+				a, b = x, append(append([]byte{}, x...), tail...)
+			case 2:
+				a, b = append(append([]byte{}, tail...), x...), x
+			case 3:
+				a, b = x, append(append([]byte{}, tail...), x...)
+			case 4:
+				a, b = x, append([]byte{}, x...)
+			default:
+				a, b = append(append(append([]byte{}, tail...), x...), tail...), x
+			}
+			k.Input("a", a)
+			k.Input("b", b)
+			k.Input("matrix", matrixDesc(m))
+			oo := o
+			oo.local = o.local
+			alignCase(k, a, b, m, oo)
+			k.Count("easy_looking_cases", 1)
+			k.Nontrivial(a, b, []byte(matrixString(m)))
+		})
+	}
+}
+
+// alignLengthPairs: EVERY pair of lengths (len(a), len(b)) from 0 to 70
+// (thorough 150) — the random units draw lengths independently and the
+// exhaustive ones stop at 6, so a table that is special for one pair of
+// dimensions (a fixed-size array for "small" inputs, a row that just fits) is
+// met only here. One checked call per pair, related sequences, a fresh matrix
+// for every len(a).
+func alignLengthPairs(c *Ctx, o alignOpts, gen func(r *rand.Rand, mi int, alpha []byte) (align.SubstitutionMatrix, bool)) {
+	maxLen := c.N(70, 150)
+	for la := 0; la <= maxLen; la++ {
+		c.Case(int64(la), func(k *K) {
+			r := k.Rand()
+			alpha := alignAlphabet(r)
+			m, local := gen(r, la, alpha)
+			k.Input("matrix", matrixDesc(m))
+			for lb := 0; lb <= maxLen; lb++ {
+				a := randSeq(r, alpha, la)
+				b := make([]byte, lb)
+				for j := range b {
+					if la > 0 && r.IntN(5) > 0 {
+						b[j] = a[j*la/max(lb, 1)%la]
+					} else {
+						b[j] = alpha[r.IntN(len(alpha))]
+					}
+				}
+				k.Input("a", a)
+				k.Input("b", b)
+				oo := o
+				oo.local = local && o.local
+				alignCase(k, a, b, m, oo)
+				if k.Failed() {
+					return
+				}
+				k.Count("length_pairs", 1)
+			}
+			k.Nontrivial([]byte(fmt.Sprint("lengthpairs", la)), []byte(matrixString(m)))
+		})
+	}
+	c.Exhaustive(fmt.Sprintf("lengthpairs: every pair of lengths 0..%d x 0..%d", maxLen, maxLen))
 }
 
 // alignWide: matrices over WIDE alphabets — 20, 63..65, 100 and all 255 symbols
